@@ -43,8 +43,9 @@ def check_c19(tier):
         seen = set(); pool = [p for p in pool if not (p['seq'] in seen or seen.add(p['seq']))]
         vp = os.path.join(d, 'pool.fasta'); write_pool(vp, pool)
         idx = os.path.join(d, 'index')
-        cutoff = r.choice([0, 5, 10, 50])
-        exprs = {t.id: r.choice([0, cutoff - 1 if cutoff else 0, cutoff, cutoff + 1, 100]) for t in w.txs}
+        # tables on a log scale have negative values, and 0 is then a meaningful cutoff
+        cutoff = r.choice([0, 0, 5, 10, 50, -2])
+        exprs = {t.id: r.choice([0, cutoff - 1, cutoff, cutoff + 1, 100, -3, -1]) for t in w.txs}
         et = os.path.join(d, 'exprs.tsv')
         hdr = r.random() < 0.5
         with open(et, 'w') as f:
